@@ -165,6 +165,7 @@ func genBulkSize(t *rapid.T, s *SessionSpec) int {
 //   - the read side (loopReceive) issues no further SetReadDeadline / Read and does not invoke the handler again once
 //     a Read or SetReadDeadline returned an error, or the handler returned an error or panicked;
 //   - OnExit starts only after a terminating event is in the log.
+//
 // The first forbidden call is kept in the flags of the case; waits of the executors end as soon as one is there.
 type countingConn struct {
 	net.Conn
@@ -1620,8 +1621,8 @@ var PartSrv = &vkit.Part[CaseSrv]{
 
 var PartSrvRace = &vkit.Part[CaseSrv]{
 	Property: Property, Name: "race-server-accept-limit",
-	Rule:  PartSrv.Rule + " (binary built with -race; mainly a thorough-tier part: a failing case of this part is expensive to minimise - every attempt waits the bounded patience - so the quick tier runs only two cases)",
-	Quick: 2, Thorough: 60,
+	Rule:  PartSrv.Rule + " (binary built with -race; thorough tier only)",
+	Quick: 1, Thorough: 60,
 	Gen: GenSrv, Exec: ExecSrv,
 }
 
